@@ -1,8 +1,9 @@
-(* StringFromTime::init on a well-formed item list: the %X check passes, the three rewrites turn
+(* StringFromTime::init on a well-formed item list: the %X check (and, in the repaired variant, the
+   scan for unpatchable conversions) passes, the three rewrites turn
    r R T into their expansions, and the split yields one part per handled conversion and one part
    per maximal run of other items. *)
 From Coq Require Import List NArith ZArith Bool Arith Lia.
-From Quill Require Import Time.TimeModel Time.TimeSpec Time.TimeStrings.
+From Quill Require Import Time.TimeModel Time.TimeSpec Time.TimeStrings Time.TimeStrict.
 Import ListNotations.
 
 Definition sp_special (y : N) : bool := mem y special.
@@ -330,9 +331,9 @@ Proof.
 Qed.
 
 (* init on a well-formed pattern *)
-Lemma sft_init_ok items : wf_items items ->
+Lemma sft_init_ok strict items : wf_items items ->
   exists gs, grouped (rw items) gs /\
-    sft_init (flat items) =
+    sft_init strict (flat items) =
     Some {| parts := map flat gs; tfmt := flat (rw items); pre := []; idxs := [];
             next := 0; cts := 0; csec := 0 |}.
 Proof.
@@ -342,5 +343,5 @@ Proof.
   { pose proof (count_handled_le (rw items)). lia. }
   exists gs. split; [exact Hg|]. unfold sft_init, m_X.
   rewrite (find2_none sp_special 88 items); auto; [|now apply letter_ok_dec|now apply no_X].
-  cbv zeta. rewrite E, Hp. reflexivity.
+  rewrite (unpatchable_wf items Hw), andb_false_r. cbv zeta. rewrite E, Hp. reflexivity.
 Qed.
